@@ -35,8 +35,11 @@ ClientOK(cell) == ~cell.cliCA \/ cell.cliCert = "trusted"
 
 \* Exporter side: is InitExportingProcess allowed / required to succeed ?
 \*   "yes" | "no" | "either" (DTLS without a ServerName: the library checks chain and validity only; not asserted)
+\* cfg: "ok" | "badCA" (CA data that is not PEM) | "badKey" (client certificate and key do not match):
+\* security settings are present but cannot be turned into a configuration - never a plaintext session
+CfgOK(cell) == ("cfg" \notin DOMAIN cell) \/ cell.cfg = "ok"
 ExporterEstablishes(cell) ==
-  IF cell.plain THEN "no"
+  IF cell.plain \/ ~CfgOK(cell) THEN "no"
   ELSE IF cell.proto = "tls" THEN (IF ServerOK(cell) /\ VersionOK(cell) THEN "yes" ELSE "no")
   ELSE IF ~(Chains(cell.srvCert) /\ InValidity(cell.srvCert)) THEN "no"
   ELSE IF cell.srvName = "unset" THEN "either"
